@@ -1,110 +1,130 @@
----- MODULE Sticky ----
+------------------------------------ MODULE Sticky ------------------------------------
+(* C26 -- sticky sessions are never used concurrently with or after close.
+
+   One session s on one worker; threads act on it concurrently.  Granularity: ONE ACTION = a thread runs
+   from one park point to the next, where park points are exactly: before every lock acquire (registry
+   lock REG, per-session re-entrant lock SES), inside a method body ("dispatch"), inside the close hook
+   ("hook").  This is the granularity at which vf/sched.py drives the real threads, so Step(t) in a TLC
+   behaviour is sched.step(t) on the real code and pc[t] predicts the label the thread parks at next.
+
+   Thread kinds (constant function Kind):
+     "use"      request carrying the session token whose method only uses the session
+     "close"    request whose method calls ctx.close_session()
+     "delete"   DELETE {prefix}/__session__
+     "reaper"   one _SessionRegistry.drain_expired() sweep
+     "shutdown" _SessionRegistry.shutdown()
+   plus Tick (the logical clock; the session expires when clock > Expires).
+
+   The code this follows (vgi_rpc/http/server/_sticky.py):
+     get():      now read BEFORE the registry lock; under REG: miss / expired (pop) / found; an expired
+                 entry is closed by the caller after REG is released, under SES
+     request:    get -> SES.acquire -> re-validate under REG (is_live) -> dispatch -> [close] -> release
+     close():    pop under REG; hook under SES (re-entrant for the holder)
+     delete:     get -> with SES: close()
+     reaper:     now read before REG; pop expired under REG; hook under SES
+     shutdown:   pop all under REG; hook under SES                                                         *)
 EXTENDS Naturals, FiniteSets, TLC
-CONSTANTS Req, MaxClock, Expires,
-          FixRevalidate,   \* intended design: re-check registry membership after acquiring the session lock
-          FixReaperLock,   \* intended design: reaper/shutdown/inline-expiry take the session lock before closing
-          FixCloseOrder    \* intended design: in-method close pops the registry before releasing the lock
+
+CONSTANTS Threads,      \* set of thread names (strings)
+          Kind,         \* [Threads -> {"use","close","delete","reaper","shutdown"}]
+          ThreadSets,   \* set of subsets of Threads: which threads take part (chosen in Init, so one TLC run /
+                        \* one dumped state graph covers several thread sets as disjoint components)
+          MaxClock, Expires
+
 None == "none"
-VARIABLES clock, reg, lockOwner, pc, holds, dispatching, closeStarted, closeCount,
-          badClose, badDispatch, dpc, rpc, spc
-vars == <<clock, reg, lockOwner, pc, holds, dispatching, closeStarted, closeCount, badClose, badDispatch, dpc, rpc, spc>>
+VARIABLES active, clock, reg, owner, depth, pc, now,
+          dispatching, closeStarted, closeCount, badClose, badDispatch, badMutex
+vars == <<active, clock, reg, owner, depth, pc, now, dispatching, closeStarted, closeCount, badClose, badDispatch, badMutex>>
+ghost == <<dispatching, closeStarted, closeCount, badClose, badDispatch, badMutex>>
 
-Init == /\ clock = 0 /\ reg = TRUE /\ lockOwner = None
-        /\ pc = [r \in Req |-> "start"] /\ holds = [r \in Req |-> FALSE]
+InitWith(A) ==
+        /\ active = A /\ clock = 0 /\ reg = TRUE /\ owner = None /\ depth = 0
+        /\ pc = [t \in Threads |-> "init"] /\ now = [t \in Threads |-> 0]
         /\ dispatching = {} /\ closeStarted = FALSE /\ closeCount = 0
-        /\ badClose = FALSE /\ badDispatch = FALSE
-        /\ dpc = "start" /\ rpc = "idle" /\ spc = "idle"
+        /\ badClose = FALSE /\ badDispatch = FALSE /\ badMutex = FALSE
+Init == \E A \in ThreadSets : InitWith(A)
 
-Expired == Expires < clock
+Goto(t, l) == pc' = [pc EXCEPT ![t] = l]
+CanLock(t) == owner = None \/ owner = t
+Lock(t) == owner' = t /\ depth' = depth + 1
+Unlock(t) == IF depth = 1 THEN owner' = None /\ depth' = 0 ELSE owner' = owner /\ depth' = depth - 1
+UnlockAll == owner' = None /\ depth' = 0
 
-\* the close hook starts (and, abstractly, completes) here
-CloseHook == /\ closeCount' = closeCount + 1
-             /\ closeStarted' = TRUE
-             /\ badClose' = (badClose \/ dispatching # {})
+HookBegin(t) == /\ closeCount' = closeCount + 1 /\ closeStarted' = TRUE
+                /\ badClose' = (badClose \/ (dispatching \ {t}) # {})
+                /\ UNCHANGED <<dispatching, badDispatch, badMutex>>
+DispatchBegin(t) == /\ dispatching' = dispatching \cup {t}
+                    /\ badDispatch' = (badDispatch \/ closeStarted)
+                    /\ badMutex' = (badMutex \/ dispatching # {})
+                    /\ UNCHANGED <<closeStarted, closeCount, badClose>>
+DispatchEnd(t) == /\ dispatching' = dispatching \ {t}
+                  /\ UNCHANGED <<closeStarted, closeCount, badClose, badDispatch, badMutex>>
 
-NoClose == UNCHANGED <<closeCount, closeStarted, badClose>>
+\* ---- first step of every thread: run up to the first registry-lock acquire; get()/drain_expired() read the clock here
+Start(t) == /\ pc[t] = "init" /\ now' = [now EXCEPT ![t] = clock] /\ Goto(t, "get")
+            /\ UNCHANGED <<clock, reg, owner, depth, ghost>>
 
-\* ---- request thread (resume path of _StickyMiddleware.process_request) ----
-ReqGet(r) == /\ pc[r] = "start"
-             /\ IF ~reg THEN /\ pc' = [pc EXCEPT ![r] = "lost"] /\ NoClose /\ UNCHANGED reg
-                ELSE IF Expired /\ ~FixReaperLock
-                     THEN /\ reg' = FALSE /\ CloseHook /\ pc' = [pc EXCEPT ![r] = "lost"]
-                     ELSE IF Expired THEN /\ pc' = [pc EXCEPT ![r] = "lost"] /\ NoClose /\ UNCHANGED reg
-                     ELSE /\ pc' = [pc EXCEPT ![r] = "got"] /\ NoClose /\ UNCHANGED reg
-             /\ UNCHANGED <<clock, lockOwner, holds, dispatching, badDispatch, dpc, rpc, spc>>
+\* ---- registry lookup under REG (request and DELETE), with inline expiry
+Get(t) == /\ pc[t] = "get" /\ Kind[t] \in {"use", "close", "delete"}
+          /\ IF ~reg THEN Goto(t, "done") /\ UNCHANGED reg
+             ELSE IF Expires < now[t] THEN reg' = FALSE /\ Goto(t, "xlock")      \* pop; close it ourselves
+             ELSE Goto(t, "lock") /\ UNCHANGED reg
+          /\ UNCHANGED <<clock, owner, depth, now, ghost>>
+\* ---- reaper / shutdown pop under REG
+Sweep(t) == /\ pc[t] = "get" /\ Kind[t] \in {"reaper", "shutdown"}
+            /\ IF reg /\ (Kind[t] = "shutdown" \/ Expires < now[t])
+               THEN reg' = FALSE /\ Goto(t, "xlock") ELSE Goto(t, "done") /\ UNCHANGED reg
+            /\ UNCHANGED <<clock, owner, depth, now, ghost>>
 
-ReqLock(r) == /\ pc[r] = "got" /\ lockOwner = None
-              /\ IF FixRevalidate /\ ~reg
-                 THEN /\ pc' = [pc EXCEPT ![r] = "lost"]
-                      /\ UNCHANGED <<lockOwner, holds, dispatching, badDispatch>>
-                 ELSE /\ lockOwner' = r /\ holds' = [holds EXCEPT ![r] = TRUE]
-                      /\ dispatching' = dispatching \cup {r}
-                      /\ badDispatch' = (badDispatch \/ closeStarted)
-                      /\ pc' = [pc EXCEPT ![r] = "dispatch"]
-              /\ UNCHANGED <<clock, reg, closeStarted, closeCount, badClose, dpc, rpc, spc>>
+\* ---- a closer that does not hold SES: acquire it, run the hook, release
+XLock(t) == /\ pc[t] = "xlock" /\ CanLock(t) /\ Lock(t) /\ HookBegin(t) /\ Goto(t, "xhook")
+            /\ UNCHANGED <<clock, reg, now>>
+XHookEnd(t) == /\ pc[t] = "xhook" /\ Unlock(t) /\ Goto(t, "done")
+               /\ UNCHANGED <<clock, reg, now, ghost>>
 
-ReqUse(r) == /\ pc[r] = "dispatch" /\ pc' = [pc EXCEPT ![r] = "post"]
-             /\ UNCHANGED <<clock, reg, lockOwner, holds, dispatching, closeStarted, closeCount, badClose, badDispatch, dpc, rpc, spc>>
+\* ---- request / DELETE: acquire SES, then re-validate (request) or pop (DELETE) under REG
+SesLock(t) == /\ pc[t] = "lock" /\ CanLock(t) /\ Lock(t)
+              /\ Goto(t, IF Kind[t] = "delete" THEN "pop" ELSE "reval")
+              /\ UNCHANGED <<clock, reg, now, ghost>>
+Reval(t) == /\ pc[t] = "reval"
+            /\ IF reg THEN DispatchBegin(t) /\ Goto(t, "dispatch") /\ UNCHANGED <<owner, depth>>
+                      ELSE Unlock(t) /\ Goto(t, "done") /\ UNCHANGED ghost
+            /\ UNCHANGED <<clock, reg, now>>
+\* method body resumes: plain use ends the dispatch; a closing method calls close_session -> parks at REG
+Dispatch(t) == /\ pc[t] = "dispatch"
+               /\ IF Kind[t] = "close" THEN Goto(t, "pop") /\ UNCHANGED <<owner, depth, ghost>>
+                                       ELSE DispatchEnd(t) /\ UnlockAll /\ Goto(t, "done")
+               /\ UNCHANGED <<clock, reg, now>>
+\* close(): pop under REG while holding SES
+Pop(t) == /\ pc[t] = "pop"
+          /\ IF reg THEN reg' = FALSE /\ Goto(t, "hlock") /\ UNCHANGED <<owner, depth, ghost>>
+             ELSE /\ UNCHANGED reg /\ UnlockAll /\ Goto(t, "done")        \* someone else popped it: nothing to close
+                  /\ IF Kind[t] = "close" THEN DispatchEnd(t) ELSE UNCHANGED ghost
+          /\ UNCHANGED <<clock, now>>
+HLock(t) == /\ pc[t] = "hlock" /\ CanLock(t) /\ Lock(t) /\ HookBegin(t) /\ Goto(t, "hhook")
+            /\ UNCHANGED <<clock, reg, now>>
+HHookEnd(t) == /\ pc[t] = "hhook" /\ UnlockAll /\ Goto(t, "done")
+               /\ IF Kind[t] = "close" THEN DispatchEnd(t) ELSE UNCHANGED ghost
+               /\ UNCHANGED <<clock, reg, now>>
 
-\* ctx.close_session(): as coded = release lock, then registry.close (pop, then hook)
-ReqCloseA(r) == /\ pc[r] = "dispatch"
-                /\ dispatching' = dispatching \ {r}
-                /\ IF FixCloseOrder
-                   THEN /\ UNCHANGED <<lockOwner, holds>>
-                   ELSE /\ lockOwner' = None /\ holds' = [holds EXCEPT ![r] = FALSE]
-                /\ pc' = [pc EXCEPT ![r] = "closeB"]
-                /\ UNCHANGED <<clock, reg, closeStarted, closeCount, badClose, badDispatch, dpc, rpc, spc>>
-ReqCloseB(r) == /\ pc[r] = "closeB"
-                /\ IF reg THEN /\ reg' = FALSE /\ pc' = [pc EXCEPT ![r] = "closeC"]
-                          ELSE /\ UNCHANGED reg /\ pc' = [pc EXCEPT ![r] = "post"]
-                /\ UNCHANGED <<clock, lockOwner, holds, dispatching, closeStarted, closeCount, badClose, badDispatch, dpc, rpc, spc>>
-ReqCloseC(r) == /\ pc[r] = "closeC" /\ CloseHook /\ pc' = [pc EXCEPT ![r] = "post"]
-                /\ UNCHANGED <<clock, reg, lockOwner, holds, dispatching, badDispatch, dpc, rpc, spc>>
-
-ReqResponse(r) == /\ pc[r] = "post"
-                  /\ IF holds[r] THEN lockOwner' = None /\ holds' = [holds EXCEPT ![r] = FALSE]
-                                 ELSE UNCHANGED <<lockOwner, holds>>
-                  /\ dispatching' = dispatching \ {r}
-                  /\ pc' = [pc EXCEPT ![r] = "done"]
-                  /\ UNCHANGED <<clock, reg, closeStarted, closeCount, badClose, badDispatch, dpc, rpc, spc>>
-
-\* ---- DELETE /__session__ ----
-DelGet == /\ dpc = "start"
-          /\ IF ~reg THEN dpc' = "done" /\ NoClose /\ UNCHANGED reg
-             ELSE IF Expired /\ ~FixReaperLock THEN reg' = FALSE /\ CloseHook /\ dpc' = "done"
-             ELSE IF Expired THEN dpc' = "done" /\ NoClose /\ UNCHANGED reg
-             ELSE dpc' = "got" /\ NoClose /\ UNCHANGED reg
-          /\ UNCHANGED <<clock, lockOwner, pc, holds, dispatching, badDispatch, rpc, spc>>
-DelLock == /\ dpc = "got" /\ lockOwner = None /\ lockOwner' = "del" /\ dpc' = "locked"
-           /\ UNCHANGED <<clock, reg, pc, holds, dispatching, closeStarted, closeCount, badClose, badDispatch, rpc, spc>>
-DelPop == /\ dpc = "locked"
-          /\ IF reg THEN reg' = FALSE /\ dpc' = "popped" ELSE UNCHANGED reg /\ dpc' = "unlock"
-          /\ UNCHANGED <<clock, lockOwner, pc, holds, dispatching, closeStarted, closeCount, badClose, badDispatch, rpc, spc>>
-DelClose == /\ dpc = "popped" /\ CloseHook /\ dpc' = "unlock"
-            /\ UNCHANGED <<clock, reg, lockOwner, pc, holds, dispatching, badDispatch, rpc, spc>>
-DelUnlock == /\ dpc = "unlock" /\ lockOwner' = None /\ dpc' = "done"
-             /\ UNCHANGED <<clock, reg, pc, holds, dispatching, closeStarted, closeCount, badClose, badDispatch, rpc, spc>>
-
-\* ---- reaper: drain_expired = pop under registry lock, close hook afterwards, no session lock ----
-ReaperPop == /\ rpc = "idle" /\ reg /\ Expired
-             /\ (FixReaperLock => lockOwner = None)
-             /\ reg' = FALSE /\ rpc' = "popped"
-             /\ IF FixReaperLock THEN lockOwner' = "reaper" ELSE UNCHANGED lockOwner
-             /\ UNCHANGED <<clock, pc, holds, dispatching, closeStarted, closeCount, badClose, badDispatch, dpc, spc>>
-ReaperClose == /\ rpc = "popped" /\ CloseHook /\ rpc' = "idle"
-               /\ IF FixReaperLock THEN lockOwner' = None ELSE UNCHANGED lockOwner
-               /\ UNCHANGED <<clock, reg, pc, holds, dispatching, badDispatch, dpc, spc>>
-
+Step(t) == /\ t \in active /\ UNCHANGED active
+           /\ \/ Start(t) \/ Get(t) \/ Sweep(t) \/ XLock(t) \/ XHookEnd(t) \/ SesLock(t) \/ Reval(t)
+              \/ Dispatch(t) \/ Pop(t) \/ HLock(t) \/ HHookEnd(t)
 Tick == /\ clock < MaxClock /\ clock' = clock + 1
-        /\ UNCHANGED <<reg, lockOwner, pc, holds, dispatching, closeStarted, closeCount, badClose, badDispatch, dpc, rpc, spc>>
-
-Next == \/ \E r \in Req : ReqGet(r) \/ ReqLock(r) \/ ReqUse(r) \/ ReqCloseA(r) \/ ReqCloseB(r) \/ ReqCloseC(r) \/ ReqResponse(r)
-        \/ DelGet \/ DelLock \/ DelPop \/ DelClose \/ DelUnlock
-        \/ ReaperPop \/ ReaperClose \/ Tick
+        /\ UNCHANGED <<active, reg, owner, depth, pc, now, ghost>>
+Next == (\E t \in Threads : Step(t)) \/ Tick
 Spec == Init /\ [][Next]_vars
 
-Mutex == Cardinality(dispatching) <= 1
+\* ------------------------------------------------------------------ property clauses (C26)
+Mutex == ~badMutex /\ Cardinality(dispatching) <= 1
 CloseAtMostOnce == closeCount <= 1
 NoCloseDuringDispatch == ~badClose
 NoDispatchAfterClose == ~badDispatch
-====
+PendingClose == \E t \in Threads : pc[t] \in {"xlock", "hlock"}
+CloseExactlyOnceIfEnded == closeCount = (IF reg \/ PendingClose THEN 0 ELSE 1)
+\* lock discipline sanity
+LockSane == (owner = None) = (depth = 0)
+NoDeadlock == (\A t \in active : pc[t] = "done") \/ ENABLED Next
+TypeOK == /\ pc \in [Threads -> {"init", "get", "lock", "reval", "dispatch", "pop", "hlock", "hhook", "xlock", "xhook", "done"}]
+          /\ clock \in 0..MaxClock /\ reg \in BOOLEAN
+==========================================================================================
